@@ -92,6 +92,10 @@ type FileInfo struct {
 
 	restorePointHeader    Header
 	restorePointRecordSet RecordSet
+
+	// positionsDetected is true while DelimiterPositions holds the positions that were detected automatically
+	// on loading: they are not an attribute of the file, which is written with measured positions again.
+	positionsDetected bool
 }
 
 func NewFileInfo(
@@ -215,6 +219,7 @@ func (f *FileInfo) SetDelimiterPositions(s string) error {
 
 	f.Format = format
 	f.DelimiterPositions = delimiterPositions
+	f.positionsDetected = false
 	f.SingleLine = singleLine
 
 	return nil
@@ -362,6 +367,9 @@ func (f *FileInfo) ExportOptions(tx *Transaction) option.ExportOptions {
 	ops.Format = f.Format
 	ops.Delimiter = f.Delimiter
 	ops.DelimiterPositions = f.DelimiterPositions
+	if f.positionsDetected {
+		ops.DelimiterPositions = nil
+	}
 	ops.SingleLine = f.SingleLine
 	ops.Encoding = f.Encoding
 	ops.LineBreak = f.LineBreak
